@@ -32,7 +32,7 @@ import Mathlib.Tactic.NormNum
   | `::make_scaling` (49-79)                           | modelled + translated | `makeScaling` = `Gen.makeScaling`; the `m_min.size() > 0` guard: see `upscaleAffine` (sizes must match, else `none`) |
   | `::update(scalar_stats_t&, values)` (81-100)       | modelled + translated | `Acc.push`, `accumulate` = fold of `Gen.updateColumn` (`model_push_is_generated`) |
   | `::done(scalar_stats_t&, enable_scaling)` (102-146)| modelled + translated | `finalize` = `Gen.doneColumn` (`model_finalize_is_generated`); ε = `Gen.epsilon2` (from numeric.h: `epsilon2`, `roundpow10`, `epsilon`), `epsilon2_pos` |
-  | `::alloc_xclass_stats`, `::update(xclass_stats_t&)`, `::done(xclass_stats_t&)`, `::make_xclass_stats` ×2 (148-208), `xclass_stats_t::make_targets_stats / make_feature_stats` (452-491) | modelled | `Model/ScalingClass.lean`: `classCounts` / `incAt`, `sampleClasses`, `classWeights`, `xclassStats`, `xclassFor` (`none` = `critical0`); with `nano::make_hashes` (src/dataset/hash.cpp) = `setInsert` / `makeHashes` and `nano::find` (include/nano/dataset/hash.h) = `lowerBound` / `find`; `nano::hash` of an indicator row is an oracle (reported per sample by the harness; sclass: the label). Theorems: `makeHashes_sorted`, `mem_makeHashes`, `find_spec`, `sample_classified`, `class_weights_pos`, `class_counts_closed_form`, `xclass_counts_pos`, `xclass_weights_pos`. (No caller in the library besides test_dataset_stats.cpp; the property statement does not mention class weights.) Proved since round 5: counts = number of samples per class (`class_counts_closed_form`), every class non-empty (`xclass_counts_pos`: the hypothesis of `class_weights_pos` holds for what `make_xclass_stats` computes, `xclass_weights_pos`). NOT proved: total weight per class = norm (checked by the python oracle on every case: key xclass-balance) |
+  | `::alloc_xclass_stats`, `::update(xclass_stats_t&)`, `::done(xclass_stats_t&)`, `::make_xclass_stats` ×2 (148-208), `xclass_stats_t::make_targets_stats / make_feature_stats` (452-491) | modelled | `Model/ScalingClass.lean`: `classCounts` / `incAt`, `sampleClasses`, `classWeights`, `xclassStats`, `xclassFor` (`none` = `critical0`); with `nano::make_hashes` (src/dataset/hash.cpp) = `setInsert` / `makeHashes` and `nano::find` (include/nano/dataset/hash.h) = `lowerBound` / `find`; `nano::hash` of an indicator row is an oracle (reported per sample by the harness; sclass: the label). Theorems: `makeHashes_sorted`, `mem_makeHashes`, `find_spec`, `sample_classified`, `class_weights_pos`, `class_counts_closed_form`, `xclass_counts_pos`, `xclass_weights_pos`, `class_weights_balanced`, `xclass_weights_balanced`. (No caller in the library besides test_dataset_stats.cpp; the property statement does not mention class weights.) Proved since round 5: counts = number of samples per class (`class_counts_closed_form`), every class non-empty (`xclass_counts_pos`: the hypothesis of `class_weights_pos` holds for what `make_xclass_stats` computes, `xclass_weights_pos`). and total weight per class = norm (`class_weights_balanced`, `xclass_weights_balanced`); the python oracle still checks both on every case (keys xclass-counts / xclass-balance) |
   | `nano::upscale(flatten_stats, …, weights, bias)` (211-231) | modelled      | `upscaleAffine` / `upscaleAffineRow` (the two matrix statements are Eigen expressions: compared with 1e-12·Σ|terms|) |
   | `scalar_stats_t::scalar_stats_t(dims)` (253-264)   | modelled + translated | `Acc.init` = `Gen.initColumn` (`model_init_is_generated`)     |
   | `scalar_stats_t::make_flatten_stats` (266-290)     | modelled              | `flattenStats`, `enableMask` (`enableMask_spec` against `column2feature`); batching loop: C09 `Iterator.makeStats` (`stats_batch_independent`); `dataset.flatten`: C08 |
@@ -782,5 +782,60 @@ theorem xclass_weights_pos (ss : List (Bool × Nat)) (hne : makeHashes ss ≠ []
     exact hne (List.length_eq_zero_iff.mp this)
 
 example : classCounts 3 [0, 2, -1, 2, 5] = [1, 0, 2] := by decide
+
+/-! #### class balance: the weights of every class add up to the same `norm` -/
+
+
+/-- `norm` of `::done(xclass_stats_t&)` -/
+def classNorm (counts : List Nat) : α :=
+  1 / (counts.map (fun (n : Nat) => (1 : α) / ((n : Nat) : α))).foldl (· + ·) 0
+
+theorem sum_filter_class (f : Int → α) (k : Int) (classes : List Int) :
+    (((classes.map (fun c => (c, f c))).filter (fun p => p.1 = k)).map (·.2)).sum =
+      (classes.countP (fun c => c = k) : α) * f k := by
+  induction classes with
+  | nil => simp
+  | cons c cs ih =>
+    by_cases h : c = k
+    · subst h
+      simp only [List.map_cons, decide_true, List.filter_cons_of_pos, List.sum_cons, ih, List.countP_cons_of_pos]
+      push_cast; ring
+    · have h' : decide (c = k) = false := by simpa using h
+      simp only [List.map_cons]
+      rw [List.filter_cons_of_neg (by simpa using h), ih, List.countP_cons_of_neg (by simpa using h)]
+
+/-- the weights balance the classes: the weights of the samples of any non-empty class `k` add up to `norm`, the same
+    value for every class (`count_k · norm / count_k`) -/
+theorem class_weights_balanced (counts : List Nat) (classes : List Int) (k : Nat)
+    (hk : counts.getD k 0 = classes.countP (fun c => c = (k : Int))) (hpos : 1 ≤ counts.getD k 0) :
+    (((List.zip classes (classWeights (α := α) counts classes)).filter (fun p => p.1 = (k : Int))).map (·.2)).sum =
+      classNorm counts := by
+  have hz : ∀ (f : Int → α) (l : List Int), List.zip l (l.map f) = l.map (fun c => (c, f c)) := by
+    intro f l; induction l with
+    | nil => rfl
+    | cons a l ih => simp [ih]
+  unfold classWeights
+  simp only [hz]
+  rw [sum_filter_class]
+  unfold classNorm
+  have hne : ((counts.getD k 0 : Nat) : α) ≠ 0 := by
+    have : 0 < counts.getD k 0 := hpos
+    exact_mod_cast this.ne'
+  simp only [Int.natCast_nonneg, ge_iff_le, if_true, Int.toNat_natCast]
+  rw [← hk]
+  field_simp
+
+/-- for what `make_xclass_stats` computes, with no hypothesis left: the sample weights of EVERY class add up to the same
+    value `norm` — the classes are balanced whatever their sizes -/
+theorem xclass_weights_balanced (ss : List (Bool × Nat)) (k : Nat) (hk : k < (makeHashes ss).length) :
+    (((List.zip (xclassStats (α := α) ss).sampleClasses (xclassStats (α := α) ss).sampleWeights).filter
+        (fun p => p.1 = (k : Int))).map (·.2)).sum = classNorm (xclassStats (α := α) ss).classSamples :=
+  class_weights_balanced _ _ k ((classCounts_spec _ _).2 k hk) (xclass_counts_pos ss k hk)
+
+example : (((List.zip [0, 1, 0, -1, 1, 1] (classWeights (α := ℚ) [2, 3] [0, 1, 0, -1, 1, 1])).filter
+    (fun p => p.1 = ((1 : Nat) : Int))).map (·.2)).sum = classNorm [2, 3] ∧ classNorm (α := ℚ) [2, 3] = 6 / 5 := by
+  constructor
+  · exact class_weights_balanced _ _ 1 (by decide) (by decide)
+  · norm_num [classNorm]
 
 end NanoVerif.Scaling
